@@ -362,6 +362,10 @@ class PureEval:
             return self.genv[name]
         if name in ("True", "False", "None"):
             return {"True": True, "False": False, "None": None}[name]
+        if name == "__name__" and self.mod is not None:
+            return self.mod.name
+        if name == "__file__" and self.mod is not None:
+            return self.mod.path
         if name in ("enumerate", "len", "range", "tuple", "list", "dict", "str", "int",
                     "sorted", "zip", "min", "max", "sum", "set", "reversed", "any", "all",
                     "isinstance", "frozenset"):
